@@ -1,9 +1,10 @@
 import Driver.Proto
 import TonicModel.Basic.ConnScript
+import TonicModel.Basic.ErrChain
 import TonicModel.Model.Reconnect
 import TonicModel.Spec.Reconnect
 namespace DriverC14
-open Proto ConnScript Reconnect
+open Proto ConnScript Reconnect ErrChain
 
 /-! token helpers -/
 
@@ -34,8 +35,20 @@ def outcome? (c : Char) : Option Outcome :=
   else if c = 'T' ∨ c = 't' then some .timeout
   else none
 
-def op? (c : Char) : Option Op :=
-  if c = 'c' then some .call else if c = 'd' ∨ c = 'g' then some .die else none
+/-- `c` plain call; `z` zero deadline; `n`/`s`/`l` a 1 ns / short / long deadline (in virtual time
+the answer of a reachable peer comes first: an ordinary call); `i`/`j` unary / server-streaming
+call that is in flight when the peer drops the connection; `d`/`g` the peer drops the connection.
+`p` two callers at the same moment. `zeroAll`: `Endpoint::timeout(0)` makes every call a
+zero-deadline call. -/
+def opZ? (zeroAll : Bool) (c : Char) : Option Op :=
+  if c = 'd' ∨ c = 'g' then some .die
+  else if c = 'z' then some .callZero
+  else if c = 'c' ∨ c = 'n' ∨ c = 's' ∨ c = 'l' then some (if zeroAll then .callZero else .call)
+  else if c = 'i' ∨ c = 'j' then some (if zeroAll then .callZero else .callDie)
+  else if c = 'p' ∧ !zeroAll then some .pair
+  else none
+
+def op? (c : Char) : Option Op := opZ? false c
 
 def b01 (b : Bool) : String := if b then "1" else "0"
 
@@ -146,13 +159,41 @@ def buildTok (t : Trace) : String :=
   | .error code att => s!"build:err{code}:{fTok att}:a{t.buildAttempts}"
   | .hang => s!"build:hang:a{t.buildAttempts}"
 
+def resTok' : CallRes → String
+  | .resp c => s!"resp{c}"
+  | .error code att => s!"err{code}:{fTok att}"
+  | .hang => "hang"
+  | .panic => "panic"
+  | .garbled => "garbled"
+  | .expired => "exp"
+  | .lost c => s!"lost{c}"
+
+def parseRes' (t : String) : Option CallRes :=
+  if t = "hang" then some .hang
+  else if t = "panic" then some .panic
+  else if t = "garbled" then some .garbled
+  else if t = "exp" then some .expired
+  else match t.splitOn ":" with
+    | [e, f] =>
+      match natAfter "err" e, (if f = "f?" then some none else (natAfter "f" f).map some) with
+      | some code, some att => some (.error code att)
+      | _, _ => none
+    | [w] =>
+      match natAfter "lost" w with
+      | some c => some (.lost c)
+      | none => (natAfter "resp" w).map .resp
+    | _ => none
+
 def evTok : Ev → String
   | .die => "d"
+  | .pair ra rb a => s!"p={resTok' ra}={resTok' rb}=a{a}"
   | .call (.resp c) a => s!"c:resp{c}:a{a}"
   | .call (.error code att) a => s!"c:err{code}:{fTok att}:a{a}"
   | .call .hang a => s!"c:hang:a{a}"
   | .call .panic a => s!"c:panic:a{a}"
   | .call .garbled a => s!"c:garbled:a{a}"
+  | .call .expired a => s!"c:exp:a{a}"
+  | .call (.lost c) a => s!"c:lost{c}:a{a}"
 
 def parseF (s : String) : Option (Option Nat) :=
   if s = "f?" then some none else (natAfter "f" s).map some
@@ -169,6 +210,13 @@ def parseBuild (t : String) : Option (BuildRes × Nat) :=
 
 def parseEv (t : String) : Option Ev :=
   if t = "d" then some .die
+  else if (stripPre "p=" t).isSome then
+    match t.splitOn "=" with
+    | [_, ra, rb, a] =>
+      match parseRes' ra, parseRes' rb, natAfter "a" a with
+      | some ra, some rb, some a => some (.pair ra rb a)
+      | _, _, _ => none
+    | _ => none
   else match t.splitOn ":" with
     | ["c", what, a] =>
       match natAfter "a" a with
@@ -177,7 +225,10 @@ def parseEv (t : String) : Option Ev :=
         if what = "hang" then some (.call .hang a)
         else if what = "panic" then some (.call .panic a)
         else if what = "garbled" then some (.call .garbled a)
-        else (natAfter "resp" what).map fun c => .call (.resp c) a
+        else if what = "exp" then some (.call .expired a)
+        else match natAfter "lost" what with
+          | some c => some (.call (.lost c) a)
+          | none => (natAfter "resp" what).map fun c => .call (.resp c) a
     | ["c", e, f, a] =>
       match natAfter "err" e, parseF f, natAfter "a" a with
       | some code, some att, some a => some (.call (.error code att) a)
@@ -190,6 +241,126 @@ def parseTrace : List String → Option Trace
     match parseBuild b, parseAll parseEv evs with
     | some (br, a), some evs => some { build := br, buildAttempts := a, evs := evs }
     | _, _ => none
+
+
+/-! cls / e2x: error chains -/
+
+def ioKind? (s : String) : Option IoKind := IoKind.all.find? (·.name = s)
+
+def node? (t : String) : Option Node :=
+  if t = "T" then some .timeoutExpired
+  else if t = "C" then some .connectError
+  else if t = "L" then some .tls
+  else if t = "X" then some .transport
+  else if t = "H2.-" then some (.h2 none)
+  else if t = "Y.00" then some (.hyper ⟨false, false⟩)
+  else if t = "Y.10" then some (.hyper ⟨true, false⟩)
+  else if t = "Y.01" then some (.hyper ⟨false, true⟩)
+  else if t = "Y.11" then some (.hyper ⟨true, true⟩)
+  else match natAfter "H2." t with
+    | some n => some (.h2 (some n))
+    | none =>
+      match stripPre "I." t with
+      | some k => (ioKind? k).map .io
+      | none =>
+        match natAfter "S" t with
+        | some c => some (.status c)
+        | none => (natAfter "W" t).map .custom
+
+def nodeTok : Node → String
+  | .status c => s!"S{c}"
+  | .timeoutExpired => "T"
+  | .connectError => "C"
+  | .hyper h => "Y." ++ b01 h.isTimeout ++ b01 h.isCanceled
+  | .h2 none => "H2.-"
+  | .h2 (some n) => s!"H2.{n}"
+  | .io k => "I." ++ k.name
+  | .tls => "L"
+  | .transport => "X"
+  | .custom i => s!"W{i}"
+
+def chainTok (c : List Node) : String :=
+  if c.isEmpty then "-" else String.intercalate ">" (c.map nodeTok)
+
+def chain? (s : String) : Option (List Node) :=
+  if s = "-" then some [] else parseAll node? (s.splitOn ">")
+
+/-- What the harness can build from a case: `W`, `I:` and `C` may wrap a further error, the
+others are leaves; a `C` needs something to wrap; `X` and `Y` only arise from real failures.
+`Yh` (case side only) is the error of a real hyper HTTP/2 handshake on a closed transport. -/
+def buildable : List Node → Bool
+  | [] => false
+  | [n] =>
+    (match n with
+     | .connectError => false
+     | .transport => false
+     | .hyper _ => false
+     | .status _ => true
+     | .timeoutExpired => true
+     | .h2 r => r.isSome
+     | .io _ => true
+     | .tls => true
+     | .custom _ => true)
+  | n :: m :: rest =>
+    (match n with
+     | .connectError => true
+     | .io _ => true
+     | .custom _ => true
+     | .status _ => false
+     | .timeoutExpired => false
+     | .hyper _ => false
+     | .h2 _ => false
+     | .tls => false
+     | .transport => false) && buildable (m :: rest)
+
+/-- The case-side chain: like `chain?`, plus a trailing `Yh`. -/
+def caseChain? (s : String) : Option (List Node) :=
+  let ts := s.splitOn ">"
+  match ts.getLast? with
+  | some "Yh" =>
+    let front := ts.dropLast
+    let tail : List Node := E2E.causeOf .deadPeer
+    if front.isEmpty then some tail
+    else match parseAll node? front with
+      | some pre => if buildable (pre ++ [.custom 0]) then some (pre ++ tail) else none
+      | none => none
+  | _ =>
+    match chain? s with
+    | some c => if buildable c then some c else none
+    | none => none
+
+/-- `code=<n>` / `walk=<chain>` pairs out of an `:`-separated token. -/
+def fieldOf (pre : String) (parts : List String) : Option String :=
+  (parts.filterMap (stripPre pre)).head?
+
+
+/-! net: `Endpoint::connect()` / `connect_lazy()` against a real socket -/
+
+def nop? (c : Char) : Option NOp :=
+  if c = 'u' then some .up else if c = 'k' ∨ c = 'x' then some .down else if c = 'c' then some .call else none
+
+def nresTok : NRes → String
+  | .resp g => s!"c:resp{g}"
+  | .error code => s!"c:err{code}"
+  | .hang => "c:hang"
+  | .garbled => "c:garbled"
+
+def parseNRes (t : String) : Option NRes :=
+  if t = "c:hang" then some .hang
+  else if t = "c:garbled" then some .garbled
+  else match natAfter "c:resp" t with
+    | some g => some (.resp g)
+    | none => (natAfter "c:err" t).map .error
+
+def nbuildTok : NBuild → String
+  | .ok => "build:ok"
+  | .error code => s!"build:err{code}"
+  | .hang => "build:hang"
+
+def parseNBuild (t : String) : Option NBuild :=
+  if t = "build:ok" then some .ok
+  else if t = "build:hang" then some .hang
+  else (natAfter "build:err" t).map .error
 
 def handle (case obs : List String) : String × String :=
   match case with
@@ -220,6 +391,86 @@ def handle (case obs : List String) : String × String :=
         | some b, some rs => verdict (Spec.Reconnect.sessBuildClauses isLazy env b (leftOf obs) ++
             Spec.Reconnect.sessClauses env rs (leftOf obs))
         | _, _ => "fail:unparsable-observation"
+      (model, v)
+    | _, _, _ => bad
+  | ["cls", chainS] =>
+    match caseChain? chainS with
+    | none => bad
+    | some chain =>
+      let model := s!"code={ErrClass.fromError chain} walk={chainTok chain}"
+      let v := match (fieldOf "code=" obs).bind (·.toNat?), (fieldOf "walk=" obs).bind chain? with
+        | some code, some walk => verdict (Spec.Reconnect.classClauses walk code)
+        | _, _ => "fail:unparsable-observation"
+      (model, v)
+  | ["e2x", m, tS, causeS] =>
+    match mode? m, caseChain? causeS with
+    | some isLazy, some cause =>
+      if tS ≠ "t" ∧ tS ≠ "n" then bad else
+      let full := ErrClass.attemptChain true true cause
+      let code := ErrClass.fromError full
+      let model :=
+        if isLazy then s!"build:ok:a0 c:err{code}:a1:walk={chainTok full} c:err{code}:a2:walk={chainTok full}"
+        else s!"build:err{code}:a1:walk={chainTok full}"
+      -- the observation as a trace of the all-attempts-fail script, plus the class of each error
+      let parseErr (t : String) : Option (Nat × Nat × List Node) :=
+        let parts := t.splitOn ":"
+        match (fieldOf "err" parts).bind (·.toNat?), (fieldOf "a" parts).bind (·.toNat?),
+              (fieldOf "walk=" parts).bind chain? with
+        | some c, some a, some w => some (c, a, w)
+        | _, _, _ => none
+      let v := match obs with
+        | [] => "fail:unparsable-observation"
+        | b :: evs =>
+          let errs := (if isLazy then evs else [b]).map parseErr
+          if errs.any (·.isNone) then
+            -- not an error where one is due: let the script oracle name the clause
+            match parseTrace ((b :: evs).map fun t => String.intercalate ":" ((t.splitOn ":").filter fun p => (stripPre "walk=" p).isNone)) with
+            | some ot => verdict (Spec.Reconnect.clauses isLazy [] [.call, .call] ot ++ [("error-expected", false)])
+            | none => "fail:unparsable-observation"
+          else
+            let es := errs.filterMap id
+            let trace : Trace :=
+              if isLazy then
+                { build := .ok, buildAttempts := 0, evs := es.map fun (c, a, _) => Ev.call (.error c none) a }
+              else
+                match es with
+                | (c, a, _) :: _ => { build := .error c none, buildAttempts := a, evs := [] }
+                | [] => { build := .hang, buildAttempts := 0, evs := [] }
+            verdict (Spec.Reconnect.clauses isLazy [] [.call, .call] trace ++
+              (es.map fun (c, _, w) => Spec.Reconnect.classClauses w c).flatten)
+      (model, v)
+    | _, _ => bad
+  | ["net", tr, m, script] =>
+    if tr ≠ "tcp" ∧ tr ≠ "uds" then bad else
+    match mode? m, script.splitOn "b" with
+    | some isLazy, [preS, postS] =>
+      match parseAll (fun s => (s.toList.head?).bind nop?) (preS.toList.map (String.singleton ·)),
+            parseAll (fun s => (s.toList.head?).bind nop?) (postS.toList.map (String.singleton ·)) with
+      | some pre, some post =>
+        if pre.contains .call then bad else
+        let t := Net.run isLazy pre post
+        let model := String.intercalate " " (nbuildTok t.build :: t.evs.map nresTok)
+        let v := match obs with
+          | b :: evs =>
+            match parseNBuild b, parseAll parseNRes evs with
+            | some br, some rs => verdict (Spec.Reconnect.netClauses isLazy pre post { build := br, evs := rs })
+            | _, _ => "fail:unparsable-observation"
+          | [] => "fail:unparsable-observation"
+        (model, v)
+      | _, _ => bad
+    | _, _ => bad
+  | ["e2d", m, et, outsS, opsS] =>
+    -- Endpoint options: z/n/s/l = Endpoint::timeout(0 / 1 ns / short / long), q = concurrency_limit(1),
+    -- r = rate_limit; `-` = none. Only a zero timeout changes what callers may see.
+    if et ≠ "-" ∧ !(et.toList.all fun c => c = 'z' ∨ c = 'n' ∨ c = 's' ∨ c = 'l' ∨ c = 'q' ∨ c = 'r') then bad else
+    match mode? m, parseAll (fun s => (s.toList.head?).bind outcome?) ((chars outsS).map (String.singleton ·)),
+          parseAll (fun s => (s.toList.head?).bind (opZ? (et.toList.contains 'z'))) ((chars opsS).map (String.singleton ·)) with
+    | some isLazy, some outs, some ops =>
+      let t := E2E.run true isLazy outs ops
+      let model := String.intercalate " " (buildTok t :: t.evs.map evTok)
+      let v := match parseTrace obs with
+        | some ot => verdict (Spec.Reconnect.clauses isLazy outs ops ot)
+        | none => "fail:unparsable-observation"
       (model, v)
     | _, _, _ => bad
   | [kind, m, outsS, opsS] =>
